@@ -57,3 +57,39 @@ Proof.
   - rewrite (Hd c Hin) in Hc. discriminate.
   - destruct body as [|b body]; [destruct Hin|]. cbn [tl] in Hin. rewrite (Hd c (or_intror Hin)) in Hc. discriminate.
 Qed.
+Lemma beq_eq : forall a b, beq a b = true -> a = b.
+Proof.
+  induction a as [|x a IH]; intros [|y b] H; cbn [beq] in H; try discriminate; [reflexivity|].
+  apply andb_prop in H. destruct H as [H1 H2]. apply Z.eqb_eq in H1. subst y. f_equal. apply IH. exact H2.
+Qed.
+
+(* whatever FromString accepts has, before its first '.', (after removal of the thousands separators) nothing, a lone '-',
+   or a well-formed numeral; and an accepted fraction has decimal digits in its first D places *)
+Lemma from_string_accepts_shape places wide str v : fx_from_string places wide str = POk v ->
+  let s := filter (fun c => negb (c =? 44)) str in
+  str <> [] /\ existsb (fun c => (c =? 69) || (c =? 101)) s = false /\
+  let p0 := fst (split_dot s []) in
+  (p0 = [] \/ p0 = [45] \/ exists w, parse_signed p0 = Some w) /\
+  (forall fr, snd (split_dot s []) = Some fr ->
+     exists f, parse_signed (firstn (S places) ((49 :: fr) ++ repeat 48 (S places - length (49 :: fr)))) = Some f).
+Proof.
+  unfold fx_from_string. destruct str as [|c0 str0]; [discriminate|]. set (str := c0 :: str0).
+  set (s := filter (fun c => negb (c =? 44)) str). cbv zeta.
+  destruct (existsb (fun c => (c =? 69) || (c =? 101)) s) eqn:Ee; [discriminate|].
+  destruct (split_dot s []) as [p0 p1] eqn:Es. cbn [fst snd].
+  intro H. split; [discriminate|]. split; [reflexivity|].
+  split.
+  - destruct p0 as [|b p0']; [left; reflexivity|]. right.
+    destruct (beq (b :: p0') [45] || beq (b :: p0') [45; 48]) eqn:Eb.
+    + apply orb_prop in Eb. destruct Eb as [Eb|Eb]; apply beq_eq in Eb; rewrite Eb; [left; reflexivity|right; exists 0; reflexivity].
+    + right. destruct wide.
+      * destruct (parse_signed (b :: p0')) as [w|]; [exists w; reflexivity|discriminate].
+      * destruct (parseInt64 (b :: p0')) as [w|] eqn:Ep; [|discriminate]. exists w. apply parseInt64_shape in Ep. apply Ep.
+  - intros fr ->.
+    match type of H with match ?R0 with _ => _ end = _ => destruct R0 as [[neg value]|]; [|discriminate] end.
+    destruct wide.
+    + match type of H with context [parse_signed ?X] => destruct (parse_signed X) as [f|] eqn:Ef; [|discriminate] end.
+      exists f. reflexivity.
+    + match type of H with context [parseInt64 ?X] => destruct (parseInt64 X) as [f|] eqn:Ef; [|discriminate] end.
+      exists f. apply parseInt64_shape in Ef. apply Ef.
+Qed.
